@@ -1,6 +1,7 @@
 package main
 
 import (
+	"encoding/json"
 	"flag"
 	"fmt"
 	"os"
@@ -48,6 +49,7 @@ func cmdVerify(args []string) int {
 	smoke := fs.Bool("smoke", false, "emit vacuity smoke obligations")
 	dump := fs.String("dump", "", "dump queries into this directory")
 	jobs := fs.Int("j", 16, "parallel solver jobs")
+	jsonOut := fs.String("json", "", "write per-obligation results to this file")
 	fs.Parse(args)
 	prog, err := loadProgram(*repo)
 	if err != nil {
@@ -191,6 +193,42 @@ func cmdVerify(args []string) int {
 				}
 			}
 		}
+	}
+	if *jsonOut != "" {
+		type oj struct {
+			Name    string  `json:"name"`
+			Func    string  `json:"func"`
+			Kind    string  `json:"kind"`
+			Tag     string  `json:"tag"`
+			Status  string  `json:"status"`
+			Solver  string  `json:"solver"`
+			Time    float64 `json:"s"`
+			Bounded int     `json:"bounded"`
+			Desc    string  `json:"desc"`
+			Pos     string  `json:"pos"`
+		}
+		type fj struct {
+			Key         string   `json:"key"`
+			Trusted     bool     `json:"trusted"`
+			SpecErrors  []string `json:"spec_errors"`
+			Crashed     string   `json:"crashed"`
+			Unsupported []string `json:"unsupported"`
+			Unrolled    []string `json:"unrolled"`
+			Obls        []oj     `json:"obligations"`
+		}
+		var out []fj
+		for _, fr := range results {
+			f := fj{Key: fr.Key, Trusted: fr.Trusted, SpecErrors: fr.SpecErrors, Crashed: fr.Crashed, Unsupported: fr.Unsupported, Unrolled: fr.Unrolled}
+			for _, o := range fr.Obls {
+				if o.Smoke {
+					continue
+				}
+				f.Obls = append(f.Obls, oj{o.Name, o.Func, o.Kind, o.Tag, o.Res.Status, o.Res.Solver, round2(o.Res.Time), o.Bounded, o.Desc, o.Pos})
+			}
+			out = append(out, f)
+		}
+		data, _ := json.MarshalIndent(out, "", " ")
+		os.WriteFile(*jsonOut, data, 0o644)
 	}
 	if bad > 0 {
 		return 1
